@@ -989,6 +989,9 @@ class P(Prop):
         ("TracklibVerif.Props.C01Call", "TV.C01.call_frame", "no side effects for a call in any form, returning or raising: a name none of its positions designates reads as before and stays listed / unlisted"),
         ("TracklibVerif.Props.C01Call", "TV.C01.list_form_is_history", "the list form is the history of its single calls cut after the first one that raises: same state, returns nothing when all return, else raises what that call raises"),
         ("TracklibVerif.Props.C01Call", "TV.C01.call_keeps_listed", "nothing disappears behind the caller's back: a call in any form that is not a deleting call (remove / '#DELETE', computeAbsCurv, operate(str)) unlists nothing, returning or raising - an operator failing mid-way with an existing output feature included (what the seeded change C01-9 broke)"),
+        ("TracklibVerif.Props.C01Call", "TV.C01.call_unlists_only_designated", "the deleting calls delete only what they are meant to delete (completes call_keeps_listed to every call form): on a track of >= 1 observations a call in any form, returning or raising, unlists no name but the argument of removeAnalyticalFeature / '#DELETE', 'ds' for computeAbsCurv, names starting with '#' for operate(str) (reserved words, never listed by the API, excepted) - the left-hand side of a re-assignment a=<expr> (get / remove / create) is listed afterwards"),
+        ("TracklibVerif.Props.C01Call", "TV.C01.expr_unlists_only_hash", "operate(str), returning or raising: every listed name that does not start with '#' stays listed, re-assigned left-hand sides included"),
+        ("TracklibVerif.Props.C01Call", "TV.C01.absCurv_unlists_only_ds", "computeAbsCurv, returning or raising: every listed name but 'ds' stays listed (a user's abs_curv included)"),
         ("TracklibVerif.Props.C01Front", "TV.C01.createFront_is_create", "createAnalyticalFeature(name, v) hands v itself to the table primitive - the default 0.0 only when no second argument is given; name=None does nothing"),
         ("TracklibVerif.Props.C01Front", "TV.C01.createFront_reads_value", "createAnalyticalFeature(new name, v) for EVERY cell value v (any type V of values: None, bool, str, numpy scalars ... - what the seeded change C01-11 broke): the name reads v at every observation, every other name reads as before"),
         ("TracklibVerif.Props.C01Front", "TV.C01.bracket_reads_value", "track[name] = v for every value v other than '#DELETE', new name (create path) or listed name (update path) alike: the name reads exactly the values given, every other name reads as before"),
@@ -1003,9 +1006,10 @@ class P(Prop):
         "where results are written and that nothing else moves; expression values are property C02's; here they are covered by the correspondence "
         "(model at Float with CPython's float_rem / float_pow / math functions) and by the oracle's direct recomputation",
         "read-back of the result of an '=' expression under its left-hand side is proved only through the refinement (the specification table runs the "
-        "same stack machine), not as a closed formula; likewise that a re-assignment `a=<expr>` (get / remove / create) leaves `a` listed, and that "
-        "operate(str) and computeAbsCurv unlist only '#' names / 'ds' among the names they designate, is not proved (call_keeps_listed covers every "
-        "call that is not one of the three deleting ones; the oracle checks it for all calls)",
+        "same stack machine), not as a closed formula: that a re-assignment `a=<expr>` leaves `a` LISTED is proved (call_unlists_only_designated), that it "
+        "then reads the expression's value is not; call_unlists_only_designated needs a track of >= 1 observations (on a track emptied of its observations "
+        "whose dict still lists features `a=b` removes `a` and the re-creation refuses the empty track) and, for operate(str), excepts the reserved words "
+        "x y z t timestamp idx (never listed by the API - __controlName -, but the alignment invariant does not say so)",
         "assignment to 't' (timestamps replaced by floats), 'timestamp' as an operand, the FILTER operator '!' between two features, D2 and the order-statistic "
         "functions in expressions, a complex result of ** , and tables that are already misaligned are outside the model (the driver answers "
         "'unsupported' and the rest of that history is not compared)",
